@@ -63,7 +63,9 @@ func getFSM(p *core.Program, r *core.Report, rule string) *fsmRun {
 func fsmCommon(fr *fsmRun, r *core.Report) {
 	f := fr.f
 	for _, pb := range f.problems {
-		r.Fail(pb.rule, pb.key, f.p.Pos(pb.pos), pb.msg)
+		if strings.HasPrefix(pb.rule, "E1.") {
+			r.Fail(pb.rule, pb.key, f.p.Pos(pb.pos), pb.msg)
+		}
 	}
 	r.Counts["states"] = len(f.states)
 	r.Counts["edges_extracted"] = len(f.edges)
@@ -228,62 +230,7 @@ func checkC04(p *core.Program, r *core.Report) {
 		}
 	}
 	r.Floor(R2, 5)
-	// R3 / R4 over entry results (connections that were open at entry)
-	type agg struct {
-		ok   bool
-		from map[string]bool
-	}
-	r3, r4 := map[string]*agg{}, map[string]*agg{}
-	for _, er := range fr.results {
-		if er.init.closed {
-			continue
-		}
-		for _, fin := range er.final {
-			doneState := func(s int8) bool { return f.inT(s) || f.stateName(s) == "SmeStateComplete" }
-			entered := !doneState(er.init.state) && doneState(fin.state)
-			ranClose := fin.closed && !er.init.closed
-			if entered || ranClose {
-				k := shortFn(er.entry) + " ends-in " + f.stateName(fin.state)
-				a := r3[k]
-				if a == nil {
-					a = &agg{ok: true, from: map[string]bool{}}
-					r3[k] = a
-				}
-				if fin.timer {
-					a.ok = false
-					a.from[f.stateName(er.init.state)] = true
-				}
-			}
-			if !f.inT(er.init.state) && f.inT(fin.state) {
-				k := shortFn(er.entry) + " enters " + f.stateName(fin.state)
-				a := r4[k]
-				if a == nil {
-					a = &agg{ok: true, from: map[string]bool{}}
-					r4[k] = a
-				}
-				if !fin.closed && !fin.closing {
-					a.ok = false
-					a.from[f.stateName(er.init.state)] = true
-				}
-			}
-		}
-	}
-	for _, k := range sortedKeys(r3) {
-		a := r3[k]
-		if a.ok {
-			r.OK(R3, k, "", "timer flag false at the end of every such path")
-		} else {
-			r.Fail(R3, k, "", "the handshake timer can be left armed when the entry starts in "+strings.Join(keysOf(a.from), ","))
-		}
-	}
-	for _, k := range sortedKeys(r4) {
-		a := r4[k]
-		if a.ok {
-			r.OK(R4, k, "", "close-once ran or a closing goroutine was spawned")
-		} else {
-			r.Fail(R4, k, "", "a terminal state is entered without closing the transport when the entry starts in "+strings.Join(keysOf(a.from), ","))
-		}
-	}
+	fsmTerminalRules(fr, r, R3, R4)
 	r.Floor(R3, 4)
 	r.Floor(R4, 4)
 }
@@ -396,4 +343,70 @@ func checkC01(p *core.Program, r *core.Report) {
 	r.Floor(R2, 1)
 	r.Floor(R3, 3)
 	checkHubTrust(p, r, R4)
+}
+
+// fsmTerminalRules: (R3) timer stopped when a path enters a terminal or the
+// completed state or runs the close routine; (R4) entering a terminal state
+// closes the transport. R3 may be "" to skip it.
+func fsmTerminalRules(fr *fsmRun, r *core.Report, R3, R4 string) {
+	f := fr.f
+	// R3 / R4 over entry results (connections that were open at entry)
+	type agg struct {
+		ok   bool
+		from map[string]bool
+	}
+	r3, r4 := map[string]*agg{}, map[string]*agg{}
+	for _, er := range fr.results {
+		if er.init.closed {
+			continue
+		}
+		for _, fin := range er.final {
+			doneState := func(s int8) bool { return f.inT(s) || f.stateName(s) == "SmeStateComplete" }
+			entered := !doneState(er.init.state) && doneState(fin.state)
+			ranClose := fin.closed && !er.init.closed
+			if entered || ranClose {
+				k := shortFn(er.entry) + " ends-in " + f.stateName(fin.state)
+				a := r3[k]
+				if a == nil {
+					a = &agg{ok: true, from: map[string]bool{}}
+					r3[k] = a
+				}
+				if fin.timer {
+					a.ok = false
+					a.from[f.stateName(er.init.state)] = true
+				}
+			}
+			if !f.inT(er.init.state) && f.inT(fin.state) {
+				k := shortFn(er.entry) + " enters " + f.stateName(fin.state)
+				a := r4[k]
+				if a == nil {
+					a = &agg{ok: true, from: map[string]bool{}}
+					r4[k] = a
+				}
+				if !fin.closed && !fin.closing {
+					a.ok = false
+					a.from[f.stateName(er.init.state)] = true
+				}
+			}
+		}
+	}
+	for _, k := range sortedKeys(r3) {
+		if R3 == "" {
+			break
+		}
+		a := r3[k]
+		if a.ok {
+			r.OK(R3, k, "", "timer flag false at the end of every such path")
+		} else {
+			r.Fail(R3, k, "", "the handshake timer can be left armed when the entry starts in "+strings.Join(keysOf(a.from), ","))
+		}
+	}
+	for _, k := range sortedKeys(r4) {
+		a := r4[k]
+		if a.ok {
+			r.OK(R4, k, "", "close-once ran or a closing goroutine was spawned")
+		} else {
+			r.Fail(R4, k, "", "a terminal state is entered without closing the transport when the entry starts in "+strings.Join(keysOf(a.from), ","))
+		}
+	}
 }
